@@ -115,6 +115,7 @@ type Machine struct {
 	mutexes     map[*Value]*mutexState
 	hashCalls   []hashCall
 	permuteMaps int
+	rotateMaps  bool
 
 	// threads
 	threads    []*Thread
@@ -1398,6 +1399,13 @@ func (th *Thread) rangeIter(x Value) Value {
 		if m.permuteMaps > 0 && n > 1 && n <= m.permuteMaps {
 			perms := permutations(n)
 			it.order = perms[m.decideN(len(perms))]
+		} else if m.rotateMaps && n > 1 {
+			// larger maps: every rotation of the insertion order (what the runtime's random
+			// start produces for a map of one bucket; an under-approximation beyond that)
+			k := m.decideN(n)
+			for i := range it.order {
+				it.order[i] = (i + k) % n
+			}
 		}
 		return it
 	case Str:
